@@ -50,7 +50,6 @@ NOT_APPLICABLE = {
     'C11': 'merge_rec is a recursion driven by a std HashMap over an impl-Iterator built with anyhow::Context, returning '
            'anyhow::Result; bringing it into Verus means replacing those parts by hand (a model, not the code); Kani runs out '
            'of memory on any harness that constructs a Sodg',
-    'C12': 'same obstacle as C11: HashMap/HashSet algebra and format! in merge(); no contract within reach of either verifier',
     'C14': 'regex, str::split/trim, u8::from_str_radix: Verus has no str byte reasoning, Kani cannot execute regex',
     'C17': 'starts_with, chars().skip().collect(), parse::<usize>(), format!: outside Verus; Kani timed out (15 min) on a one-character input',
     'C18': 'the observable is a document produced by xml-builder, format! and itertools::sorted; no contract can speak about it',
@@ -237,6 +236,42 @@ PROPS = {
         ['merge() and slice() (hash containers) are not covered', 'next_id() body: see C05'],
         extra=dict(units=['U_ops', 'U_model', 'U_slice'], classify=classify_config_sensitive(SENSITIVE_SIZE + SENSITIVE_NONDET))),
 
+    'C12': dict(
+        units=['U_merge'], level='proof',
+        technique='contract-based deductive verification (Verus) of the real merge()/merge_rec(): invariant "every key of '
+                  '`mapped` is a present right vertex reachable from `right`", counting lemma (as many keys as present '
+                  'vertices => every present vertex is a key), termination measure of the recursion; the operations on the '
+                  'LEFT graph are contract-free stubs (nothing about the left graph is claimed)',
+        level_text='Unbounded proof on the extracted real merge()/merge_rec() of the acceptance decision: merge() returns Ok only '
+                   'if every present vertex of the right graph is a key of the mapping and reachable from `right`; hence a '
+                   'present right vertex that cannot be reached from `right` (isolated vertex, detached sub-tree, `right` not '
+                   'the root) makes it return Err. merge_rec() terminates on every right graph (also cyclic ones). Partial '
+                   'correctness with respect to the left graph: its operations may panic; nothing is claimed about them here.',
+        level_note='Trusted: Verus/Z3; contracts of std HashMap<usize,usize> (new/contains_key/insert/get/len) and of the '
+                   'std items used only to build the error text (HashSet::from_iter, set difference, sort_unstable, '
+                   'keys().copied().collect()); kids()/len()/keys() of the right graph by their contracts (proved in U_ops). '
+                   'Not covered: the TEXT of the error (which vertices it names; format!/anyhow! are opaque, T9); what the '
+                   'mapping means for the left graph (C11). Precondition from the property\'s quantifier: no edge of a '
+                   'present right vertex leads to an absent vertex.',
+        design_ref='DESIGN.md §4 C12',
+        trusted_base=GRAPH_TRUSTED + [
+            'std::collections::HashMap<usize,usize>: new/contains_key/insert/get/len over a finite ghost map',
+            'HashSet::from_iter / `&a - &b` / into_iter().collect() / <[T]>::sort_unstable / keys().copied().collect(): '
+            'accepted without functional contract (they only feed the error text)',
+            'add/bind/put/kid/next_id/join on the left graph: contract-free stubs in this unit (may do anything to the left '
+            'graph, may panic); they cannot touch the right graph or the mapping (Rust borrows)',
+            'contracts of kids()/len()/keys(): taken by contract only in this unit, proved in U_ops'],
+        explanation='merge-ok-only-if-every-present-right-vertex-is-reachable (postcondition of merge), '
+                    'merge-ok-only-if-every-present-right-vertex-is-mapped (assertion at the Ok exit), merge_rec-* (keys are '
+                    'present right vertices, keys only grow, new keys are reachable from `right`, termination).',
+        not_covered=['the text of the error message ("naming the vertices it missed"): format!/anyhow! are opaque',
+                     'right graphs with dangling edges (an edge of a present vertex to a collected vertex) are outside the '
+                     'property\'s quantifier; on such a graph the count comparison can be fooled (observed: a dangling target '
+                     'makes up for an isolated present vertex and merge() returns Ok) - recorded in DESIGN.md as an observation'],
+        assumptions=['the right graph is well-formed, `right` is present, and no edge of a present right vertex leads to an '
+                     'absent vertex (closed_present: the property quantifies over trees of present vertices)',
+                     'the left graph is well-formed on entry (only used for self.len())'],
+    ),
     'C13': dict(
         units=['U_slice', 'U_model'], level='proof',
         technique='contract-based deductive verification (Verus) of the real slice()/slice_some(): work-list invariant '
